@@ -2167,15 +2167,8 @@ func unmarshalTuple(info TypeInfo, data []byte, value interface{}) error {
 				return err
 			}
 
-			switch rv.Field(i).Kind() {
-			case reflect.Ptr:
-				if p != nil {
-					rv.Field(i).Set(reflect.ValueOf(v))
-				} else {
-					rv.Field(i).Set(reflect.Zero(reflect.TypeOf(v)))
-				}
-			default:
-				rv.Field(i).Set(reflect.ValueOf(v).Elem())
+			if err := setTupleComponent(info, rv.Field(i), v, p == nil); err != nil {
+				return err
 			}
 		}
 
@@ -2204,15 +2197,8 @@ func unmarshalTuple(info TypeInfo, data []byte, value interface{}) error {
 				return err
 			}
 
-			switch rv.Index(i).Kind() {
-			case reflect.Ptr:
-				if p != nil {
-					rv.Index(i).Set(reflect.ValueOf(v))
-				} else {
-					rv.Index(i).Set(reflect.Zero(reflect.TypeOf(v)))
-				}
-			default:
-				rv.Index(i).Set(reflect.ValueOf(v).Elem())
+			if err := setTupleComponent(info, rv.Index(i), v, p == nil); err != nil {
+				return err
 			}
 		}
 
@@ -2220,6 +2206,27 @@ func unmarshalTuple(info TypeInfo, data []byte, value interface{}) error {
 	}
 
 	return unmarshalErrorf("cannot unmarshal %s into %T", info, value)
+}
+
+// setTupleComponent stores a decoded tuple component into dst. v is a pointer
+// to the decoded value (of the default Go type for the component). dst may be
+// of that type, or a pointer to it (set to nil for a null component); any other
+// type is reported as an error instead of panicking in reflect.Value.Set.
+func setTupleComponent(info TypeInfo, dst reflect.Value, v interface{}, isNull bool) error {
+	pv := reflect.ValueOf(v)
+	switch {
+	case pv.Type().Elem().AssignableTo(dst.Type()):
+		dst.Set(pv.Elem())
+	case pv.Type().AssignableTo(dst.Type()):
+		if isNull {
+			dst.Set(reflect.Zero(dst.Type()))
+		} else {
+			dst.Set(pv)
+		}
+	default:
+		return unmarshalErrorf("can not unmarshal %s: tuple component of type %s into %s", info, pv.Type().Elem(), dst.Type())
+	}
+	return nil
 }
 
 // UDTMarshaler is an interface which should be implemented by users wishing to
